@@ -138,3 +138,20 @@ Proof.
     + pose proof (Z.div_pos x (2 ^ s) Hpos Hp). lia.
     + assert (x / 2 ^ s <= x) by (apply Z.div_le_upper_bound; [lia|nia]). lia.
 Qed.
+
+(* ---- or of disjoint bit ranges is addition ---- *)
+
+Lemma land_shifted_low hi lo n : 0 <= n -> 0 <= lo < 2 ^ n -> Z.land (hi * 2 ^ n) lo = 0.
+Proof.
+  intros Hn Hlo. apply Z.bits_inj'. intros i Hi. rewrite Z.land_spec, Z.bits_0.
+  destruct (Z_lt_ge_dec i n).
+  - rewrite Z.mul_pow2_bits_low by lia. reflexivity.
+  - replace lo with (lo mod 2 ^ n) by (apply Z.mod_small; lia).
+    rewrite Z.mod_pow2_bits_high by lia. apply andb_false_r.
+Qed.
+
+Lemma lor_shifted_low hi lo n : 0 <= n -> 0 <= lo < 2 ^ n -> Z.lor (hi * 2 ^ n) lo = hi * 2 ^ n + lo.
+Proof.
+  intros Hn Hlo. pose proof (land_shifted_low hi lo n Hn Hlo) as H.
+  rewrite Z.add_nocarry_lxor by exact H. symmetry. apply Z.lxor_lor. exact H.
+Qed.
